@@ -696,6 +696,8 @@ package packets
 //@ call Buffer.Write#5 assert [C06] c.UsernameFlag && len(p) == 2 + len(c.Username) && (forall k int :: 0 <= k && k < len(c.Username) ==> p[2 + k] == c.Username[k])
 //@ call Buffer.Write#6 assert [C06] c.PasswordFlag && len(p) == 2 + len(c.Password) && (forall k int :: 0 <= k && k < len(c.Password) ==> p[2 + k] == c.Password[k])
 //@ call FixHeader.Pack#1 assert [C06] c.FixHeader.PacketType == 1 && c.FixHeader.Flags == 0 && c.FixHeader.RemainLength == bufw.$w - bufw.$r && bufw.$r == 0
+// every field the connect flags announce is written, once, and no other
+//@ call FixHeader.Pack#1 assert [C06] called(Buffer.Write#3) == (c.WillFlag ? 1 : 0) && called(Buffer.Write#4) == (c.WillFlag ? 1 : 0) && called(Buffer.Write#5) == (c.UsernameFlag ? 1 : 0) && called(Buffer.Write#6) == (c.PasswordFlag ? 1 : 0) && called(Buffer.Write#2) == 1
 
 // ---------------------------------------------------------------------------
 // C06 — memory in proportion to the bytes supplied. r.$avail (trusted/io.gvc) is the number of bytes the peer has
